@@ -30,7 +30,12 @@ def pubkeys_file(keys, form="uncompressed"):
 
 
 def ui_message(rng, btc_pub33, header=b"HSM:UI:5.4", signer_hash=None, iteration=None, ud=None):
-    ud = ud if ud is not None else rng.randbytes(32)
+    if ud is None:
+        ud = rng.randbytes(32)
+        if rng.random() < 0.3:
+            # a UD value that reads on as text after the header ("5.4" + "7.1...")
+            n = rng.randint(1, 6)
+            ud = bytes(rng.choice(b"0123456789.:") for _ in range(n)) + ud[n:]
     signer_hash = signer_hash if signer_hash is not None else rng.randbytes(32)
     iteration = iteration if iteration is not None else rng.choice([0, 1, 255, 256, 65535,
                                                                     rng.randrange(65536)])
@@ -42,8 +47,19 @@ def ui_message(rng, btc_pub33, header=b"HSM:UI:5.4", signer_hash=None, iteration
 def build(rng, keys=None, signer_form="current", ui_msg=None, signer_msg=None,
           ui_tweak=None, signer_tweak=None):
     """canonical chain device<root, attestation<device, ui/signer<attestation (tweaked)"""
+    grind = keys is None and signer_form == "legacy" and rng.random() < 0.2
     keys = keys or operator_keys(rng)
     kh = keys_hash({p: g1.pub65(k) for p, k in keys.items()})
+    if grind:
+        # legacy signer message = header + keys hash: make the hash begin with an ASCII
+        # digit, so that it reads on as text after "HSM:SIGNER:5.4"
+        pubs = {p: g1.pub65(k) for p, k in keys.items()}
+        for _ in range(200):
+            if kh[0] in b"0123456789":
+                break
+            keys[PATHS[-1]] = g1.new_key(rng)
+            pubs[PATHS[-1]] = g1.pub65(keys[PATHS[-1]])
+            kh = keys_hash(pubs)
     root = g1.new_key(rng)
     dev = g1.new_key(rng)
     att = g1.new_key(rng)
